@@ -92,6 +92,7 @@ def to_octopus(
         blocks = [(slice(None), 0)]
     for site_slice, i0 in blocks:
         dset = dset_stacked.isel(site=site_slice, time=slice(i0, i0 + ntime)).load()
+        dset = dset.sortby(attrs.DIRNAME)  # bin width is taken from the first two directions
 
         # Time arrays
         times = dset.time.to_index().to_pydatetime()
